@@ -120,6 +120,17 @@ def law_case(case, res):
             if not res.ratio("additivity err / budget", abs(vals[(i, j)] + vals[(j, k)] - vals[(i, k)]), t3):
                 res.violation("time_delay|additivity", f"d(f{i},f{j}) + d(f{j},f{k}) != d(f{i},f{k})", case,
                               {"i": i, "j": j, "k": k})
+    # infinite reference frequency: delay = K DM f^-2 (and minus that with the roles swapped)
+    for i, a in enumerate(fq):
+        for infq in (np.inf * u.MHz, np.inf * u.Hz):
+            d1, d2 = dm.time_delay(a, infq), dm.time_delay(infq, a)
+            res.transitions += 2
+            want = dispersion.delay_s(dmx, fx[i], None)
+            t_ = abs(want) * (16 * REL if not unit_is_const else F(1, 10 ** 12)) + F(1, 10 ** 300)
+            if not np.isfinite(d1.value) or abs(sec(d1) - want) > t_ or not np.isfinite(d2.value) or abs(sec(d2) + want) > t_:
+                res.violation("time_delay|infinite reference", f"time_delay({FREQS[i]}, inf) = {d1!r}, time_delay(inf, f) = {d2!r}; "
+                              f"K*DM/f^2 = {float(want)!r} s", case, {"f": FREQS[i]})
+    res.hits["infinite reference frequency"] += 1
     res.hits["delay law triples"] += 1
     # array-valued f
     arr = u.Quantity([q.to(u.MHz) for q in fq])
@@ -157,9 +168,9 @@ def incoh_case(case, res):
         T0 = None if z.start_time is None else T(z.start_time)
         refs = [("none", None), ("center", z.center_freq), ("bottom", z.min_freq), ("top", z.max_freq),
                 ("above", z.max_freq + 2 * z.chan_bw), ("below", z.min_freq - 3 * z.chan_bw),
-                ("label", z.channel_freqs[min(1, nchan - 1)])]
+                ("label", z.channel_freqs[min(1, nchan - 1)]), ("inf", np.inf * u.MHz)]
         for refname, ref in refs:
-            refx = hz(z.center_freq) if ref is None else hz(ref)
+            refx = hz(z.center_freq) if ref is None else (None if refname == "inf" else hz(ref))
             unit_sweep = dispersion.delay_samples(1, fmin, refx, srx) - dispersion.delay_samples(1, fmax, refx, srx)
             for sweep in (0.0, 0.4, -0.4, 2.3, -2.3, N - 0.5, -(N - 0.5), N + 2.3, -(N + 2.3), 3 * N + 0.7, 1.0):
                 dmv = float(F(sweep) / unit_sweep)
@@ -270,7 +281,7 @@ def check_case(case):
 def main(argv=None):
     return report.run_check(
         PID, gen_cases=gen_cases, check_case=check_case, describe=describe,
-        required_hits=["delay law triples", "DM in a non-default unit", "negative DM", "every returned sample traced",
+        required_hits=["delay law triples", "infinite reference frequency", "DM in a non-default unit", "negative DM", "every returned sample traced",
                        "start_time moved", "no start time (relative alignment only)",
                        "channels realigned by different delays", "delays of both signs (reference inside band)",
                        "all delays one sign (reference outside band)", "no valid instant in span: raise/empty accepted"],
